@@ -40,9 +40,9 @@ func gen(r *harn.Rng, tier string) interface{} {
 			x := r.Intn(100)
 			switch {
 			case x < 50:
-				sc.Ops = append(sc.Ops, op{K: "w", Dir: r.Intn(2), N: r.Pick(0, 1, 4, 5, 100, 1500, 9000)})
+				sc.Ops = append(sc.Ops, op{K: "w", Dir: r.Intn(2), N: r.Pick(0, 1, 4, 5, 100, 1500, 9000, 4, 100, 1500, 65536, 70000)})
 			case x < 85:
-				sc.Ops = append(sc.Ops, op{K: "r", Dir: r.Intn(2), N: r.Pick(0, 1, 4, 64, 1500, 10000)})
+				sc.Ops = append(sc.Ops, op{K: "r", Dir: r.Intn(2), N: r.Pick(0, 1, 4, 64, 1500, 10000, 100000)})
 			case x < 89:
 				// a write refused because the write deadline has passed changes nothing
 				sc.Ops = append(sc.Ops, op{K: "wtimeout", Dir: r.Intn(2), N: r.Pick(0, 4, 100)})
@@ -60,7 +60,7 @@ func gen(r *harn.Rng, tier string) interface{} {
 		return sc
 	}
 	sc.Kind = "bridge"
-	sc.BufLens = [2]int{r.Pick(2000, 2000, 8, 4, 100), r.Pick(2000, 2000, 8, 4, 100)}
+	sc.BufLens = [2]int{r.Pick(2000, 2000, 8, 4, 100, 0), r.Pick(2000, 2000, 8, 4, 100, 0)}
 	// pending drop / reorder counters per direction, to avoid requesting both at once
 	pendDrop, pendReo := [2]int{}, [2]int{}
 	qlen := [2]int{}
@@ -105,6 +105,15 @@ func gen(r *harn.Rng, tier string) interface{} {
 			sc.Ops = append(sc.Ops, op{K: "reorder", Dir: d})
 		case x < 89:
 			sc.Ops = append(sc.Ops, op{K: "filter", Dir: d, N: r.Pick(0, 1, 2)})
+		case x < 91 && pendReo[d] == 0 && pendDrop[d] == 0:
+			if r.Bool(0.5) {
+				// loss switched on and off again without a write in between: nothing may be lost afterwards
+				sc.Ops = append(sc.Ops, op{K: "lossblip", N: r.Pick(1, 50, 100)})
+			} else {
+				// k writers at once in one direction while DropNextNWrites(n) is armed: exactly
+				// min(n, k) of their messages are dropped
+				sc.Ops = append(sc.Ops, op{K: "cburst", Dir: d, N: r.Range(2, 4), Off: r.Pick(0, 1, 1, 2, 3)})
+			}
 		case x < 94:
 			// one Tick with both readers waiting: hands over the head of each non-empty queue
 			// (the queues are then partly delivered, which later Drop/Reorder calls must respect)
@@ -199,6 +208,9 @@ func runBridge(env *simrt.Env, sc *scenario) {
 					return
 				}
 				got[e] = append(got[e], append([]byte(nil), buf[:n]...))
+				if len(got[e]) > 5000 {
+					return // a Read that does not consume anything would spin for ever; the comparison below reports it
+				}
 			}
 		})
 	}
@@ -287,6 +299,73 @@ func runBridge(env *simrt.Env, sc *scenario) {
 				}
 				env.Probe("tick-without-reader")
 			}
+		case "lossblip":
+			br.SetLossChance(o.N)
+			br.SetLossChance(0)
+			env.Probe("loss-blip")
+		case "cburst":
+			if sc.Lazy || models[d].dropN > 0 || models[d].reorderN > 0 || models[d].filter != nil {
+				continue
+			}
+			flush()
+			if env.Failed() {
+				return
+			}
+			before := len(got[1-d])
+			br.DropNextNWrites(d, o.Off)
+			burst := map[string]bool{}
+			var ws []*simrt.Handle
+			for k := 0; k < o.N; k++ {
+				b := msg(nextID, 16)
+				nextID++
+				burst[string(b)] = true
+				cp := append([]byte(nil), b...)
+				ws = append(ws, env.Go("burst-writer", func() { _, _ = conns[d].Write(cp) }))
+			}
+			env.Join(ws...)
+			br.Process()
+			env.Quiesce()
+			wantN := o.N - o.Off
+			if wantN < 0 {
+				wantN = 0
+			}
+			newMsgs := got[1-d][before:]
+			if len(newMsgs) != wantN {
+				env.Fail("C18/bridge-drop-count", "op %d: %d concurrent writes in direction %d with DropNextNWrites(%d) armed delivered %d messages, want %d", i, o.N, d, o.Off, len(newMsgs), wantN)
+				return
+			}
+			for _, m := range newMsgs {
+				w := m
+				_ = w
+				okMsg := false
+				for full := range burst {
+					fb := []byte(full)
+					if len(fb) > sc.BufLens[1-d] {
+						fb = fb[:sc.BufLens[1-d]]
+					}
+					if bytes.Equal(fb, m) {
+						okMsg = true
+						delete(burst, full)
+						break
+					}
+				}
+				if !okMsg {
+					env.Fail("C18/bridge-wrong-message", "op %d: a message read after the concurrent burst is none of the burst's messages (or one of them twice): %s", i, describe(m))
+					return
+				}
+			}
+			// what was delivered is part of the history: keep the expectation aligned with it
+			expect[1-d] = append(expect[1-d], nil)
+			expect[1-d] = expect[1-d][:len(expect[1-d])-1]
+			for _, m := range newMsgs {
+				full := append([]byte(nil), m...)
+				expect[1-d] = append(expect[1-d], full)
+			}
+			if o.Off > o.N {
+				// the remaining armed drops swallow the next writes of the script
+				models[d].dropN = o.Off - o.N
+			}
+			env.Probe("concurrent-burst")
 		case "tick1":
 			if sc.Lazy {
 				continue
@@ -514,7 +593,7 @@ func runDpipe(env *simrt.Env, sc *scenario) {
 			continue
 		}
 		for len(q[e]) > 0 {
-			buf := make([]byte, 20000)
+			buf := make([]byte, 100000)
 			n, err := ends[e].Read(buf)
 			if err != nil || !bytes.Equal(buf[:n], q[e][0]) {
 				env.Fail("C18/dpipe-wrong-message", "drain: Read on end %d = (%d, %v), want %d bytes (other end closed: %v)", e, n, err, len(q[e][0]), closed[1-e])
